@@ -76,6 +76,9 @@ func NewProxy() *Proxy {
 			Proxy:                 http.ProxyFromEnvironment,
 			TLSHandshakeTimeout:   10 * time.Second,
 			ExpectContinueTimeout: time.Second,
+			// A proxy relays representations as the origin encoded them: without this the
+			// transport asks for gzip on the client's behalf and hands back decoded bytes.
+			DisableCompression: true,
 		},
 		timeout: 5 * time.Minute,
 		closing: make(chan bool),
